@@ -22,7 +22,7 @@ MANIFEST = {
  'technique': 'Lean 4 proof (simulation with a coupling invariant, induction over runs) + table extraction + differential correspondence',
  'design_ref': 'DESIGN.md §6 C10',
 }
-THEOREMS = ['C10.view_refines_partial', 'C10.view_step', 'C10.wf_step', 'C10.coupled_step',
+THEOREMS = ['C10.view_refines_partial', 'C10.view_refines_batched_partial', 'C10.step_plain', 'C10.view_step', 'C10.wf_step', 'C10.coupled_step',
             'C10.view_channels', 'C10.view_channel', 'C10.view_channel_full', 'C10.view_channel_gone',
             'C10.own_part_removes', 'C10.own_kick_removes', 'C10.reconnect_clears',
             'C10.view_refines_fails_intarg', 'C10.separateModes_ignores_isupport', 'C10.param_mode_mispaired',
